@@ -2,10 +2,13 @@ package ctreeprop
 
 import (
 	"encoding/json"
+	"errors"
 	"fmt"
 	"math"
 	"reflect"
+	"regexp"
 	"sort"
+	"strings"
 	"testing"
 
 	"github.com/openconfig/gnmi/ctree"
@@ -70,38 +73,232 @@ func runkey(k string) []string {
 	return p
 }
 
-func sameValue(a, b interface{}) bool {
-	if fa, ok := a.(float64); ok {
-		fb, ok := b.(float64)
-		return ok && math.Float64bits(fa) == math.Float64bits(fb)
-	}
-	return reflect.DeepEqual(a, b)
-}
 
 type richOp struct {
-	Kind string   `json:"kind"` // add | del
+	// Kind: add | del | delcond | walkdel | upd (Leaf.Update through a handle taken with GetLeaf)
+	Kind string   `json:"kind"`
 	Path []string `json:"path"`
 	K    int      `json:"k"`
 	V    int      `json:"v"`
 	Pick int      `json:"pick,omitempty"` // re-address to the Pick-th stored leaf (an Add at an existing leaf)
+	// Same: an add/upd at an existing leaf stores a value of the kind the leaf holds (K is ignored then)
+	Same bool `json:"same,omitempty"`
+	// G: deletes only; bit i set = element i of the path is replaced by the glob, bit 4 = a trailing glob is appended
+	G int `json:"g,omitempty"`
 }
 
 type richScenario struct {
 	Ops []richOp `json:"ops"`
 }
 
+// value kinds 0-6 are plain data (mkValue); 7-14 are the values a caller can build from the package's own
+// exported API, or that look like the tree's internal representation, or that look "empty" (mkTreeValue).
+var richKinds = []int{0, 1, 2, 3, 4, 5, 6, 7, 9, 10, 0, 1, 2, 3, 4, 5, 6, 8, 11, 12, 13, 14, 7, 9}
+
 func genRichScenario(t *rapid.T) *richScenario {
 	op := func(t *rapid.T) richOp {
-		o := richOp{Kind: rapid.SampledFrom([]string{"add", "add", "add", "add", "del"}).Draw(t, "kind")}
+		o := richOp{Kind: rapid.SampledFrom([]string{"add", "add", "add", "add", "del", "add", "add", "upd", "delcond", "walkdel", "add", "del"}).Draw(t, "kind")}
 		o.Path = genRichPath(t)
-		o.K = rapid.IntRange(0, 6).Draw(t, "vkind")
+		o.K = rapid.SampledFrom(richKinds).Draw(t, "vkind")
 		o.V = rapid.IntRange(0, 50).Draw(t, "v")
 		if rapid.IntRange(0, 2).Draw(t, "again") == 0 {
 			o.Pick = rapid.IntRange(1, 6).Draw(t, "pick")
+			o.Same = rapid.IntRange(0, 2).Draw(t, "same-kind") == 0
+		}
+		if o.Kind != "add" && o.Kind != "upd" && rapid.IntRange(0, 2).Draw(t, "globbed") == 0 {
+			o.G = rapid.IntRange(1, 31).Draw(t, "globs")
 		}
 		return o
 	}
-	return &richScenario{Ops: rapid.SliceOfN(rapid.Custom(op), 2, 30).Draw(t, "ops")}
+	// nested so that sequences are long on average and still shrink element by element
+	var ops []richOp
+	for _, chunk := range rapid.SliceOfN(rapid.SliceOfN(rapid.Custom(op), 2, 8), 1, 4).Draw(t, "ops") {
+		ops = append(ops, chunk...)
+	}
+	return &richScenario{Ops: ops}
+}
+
+// namedBranch has the tree's own (unexported) representation of an interior node as underlying type.
+type namedBranch map[string]*ctree.Tree
+
+var richSourceLeaves = [][]string{{"x", "y"}, {"x", "z"}, {"w"}, {"a"}, {"a b", "a"}}
+
+// richSource builds the tree the tree-related values are taken from (never the tree under test: a value that
+// reaches the tree it is stored in is a cycle, and the tree's own error texts print values with %#v).
+func richSource() *ctree.Tree {
+	s := &ctree.Tree{}
+	for i, p := range richSourceLeaves {
+		if i == 2 {
+			s.Add(p, "w-value")
+			continue
+		}
+		s.Add(p, i+1)
+	}
+	return s
+}
+
+func checkRichSource(s *ctree.Tree) error {
+	var got []string
+	s.WalkSorted(func(path []string, _ *ctree.Leaf, v interface{}) error {
+		got = append(got, fmt.Sprintf("%q=%v", path, v))
+		return nil
+	})
+	want := `["a"]=4 ["a b" "a"]=5 ["w"]=w-value ["x" "y"]=1 ["x" "z"]=2`
+	if g := strings.Join(got, " "); g != want {
+		return fmt.Errorf("the tree that values were taken from (Children(), Get, GetLeaf) holds %s, it held %s before its nodes were stored as VALUES in another tree", g, want)
+	}
+	return nil
+}
+
+// mkTreeValue builds the value of kind k (7..14) from v; src is the tree snapshots and nodes are taken from.
+func mkTreeValue(src *ctree.Tree, k, v int) interface{} {
+	switch k {
+	case 7: // what Children() returns
+		switch v % 3 {
+		case 0:
+			return src.Children()
+		case 1:
+			return src.Get([]string{"x"}).Children()
+		}
+		return src.Get([]string{"w"}).Children() // Children of a leaf: a nil map of that type (not a nil interface)
+	case 8: // maps of that type built by hand
+		switch v % 3 {
+		case 0:
+			return map[string]*ctree.Tree{}
+		case 1:
+			return map[string]*ctree.Tree{"n": nil, "a": {}}
+		}
+		return map[string]*ctree.Tree{"a": src.Get([]string{"x"}), "b": src}
+	case 9: // nodes
+		switch v % 5 {
+		case 0:
+			return src
+		case 1:
+			return src.Get([]string{"x"})
+		case 2:
+			return src.Get([]string{"w"})
+		case 3:
+			return &ctree.Tree{}
+		}
+		return (*ctree.Tree)(nil)
+	case 10: // leaf handles
+		switch v % 4 {
+		case 0:
+			return ctree.DetachedLeaf(v)
+		case 1:
+			return src.GetLeaf([]string{"w"})
+		case 2:
+			return src.GetLeaf([]string{"x"})
+		}
+		return (*ctree.Leaf)(nil)
+	case 11: // by value
+		if v%2 == 0 {
+			return ctree.Tree{}
+		}
+		return ctree.Leaf{}
+	case 12: // functions
+		switch v % 3 {
+		case 0:
+			return func() int { return v }
+		case 1:
+			return (func())(nil)
+		}
+		return ctree.VisitFunc(func([]string, *ctree.Leaf, interface{}) error { return nil })
+	case 13: // look-alikes of the internal representation
+		switch v % 5 {
+		case 0:
+			return namedBranch{"a": {}}
+		case 1:
+			return map[string]*ctree.Leaf{"a": ctree.DetachedLeaf(v)}
+		case 2:
+			m := src.Children()
+			return &m
+		case 3:
+			return map[string]interface{}{"a": v}
+		}
+		return make(chan int)
+	case 14: // values that look empty
+		switch v % 10 {
+		case 0:
+			return ""
+		case 1:
+			return false
+		case 2:
+			return 0
+		case 3:
+			return []byte{}
+		case 4:
+			return []byte(nil)
+		case 5:
+			return (*int)(nil)
+		case 6:
+			return struct{}{}
+		case 7:
+			return [0]int{}
+		case 8:
+			return []string(nil)
+		}
+		return errors.New("")
+	}
+	return mkValue(k, v)
+}
+
+var richKindName = map[int]string{7: "children-snapshot", 8: "map-of-nodes", 9: "node-pointer", 10: "leaf-handle", 11: "node-by-value", 12: "func",
+	13: "look-alike-of-a-branch", 14: "empty-looking"}
+
+// sameValue: is got the value that was stored? Identity for reference kinds that have one (maps, funcs, channels,
+// pointers), == for other comparable types (floats by bits), structure for slices and structs holding them.
+func sameValue(a, b interface{}) bool {
+	if reflect.TypeOf(a) != reflect.TypeOf(b) {
+		return false
+	}
+	if a == nil {
+		return true
+	}
+	if fa, ok := a.(float64); ok {
+		return math.Float64bits(fa) == math.Float64bits(b.(float64))
+	}
+	va, vb := reflect.ValueOf(a), reflect.ValueOf(b)
+	switch va.Kind() {
+	case reflect.Map, reflect.Func, reflect.Chan:
+		return va.Pointer() == vb.Pointer()
+	}
+	if va.Type().Comparable() {
+		return a == b
+	}
+	return reflect.DeepEqual(a, b)
+}
+
+// describe names a value in messages without printing addresses.
+func describe(v interface{}) string {
+	switch v.(type) {
+	case int, string, float64, bool, []byte, []interface{}, map[string]int:
+		return fmt.Sprintf("%#v", v)
+	}
+	rv := reflect.ValueOf(v)
+	switch rv.Kind() {
+	case reflect.Map, reflect.Slice:
+		return fmt.Sprintf("%T(nil=%v,len=%d)", v, rv.IsNil(), rv.Len())
+	case reflect.Pointer, reflect.Func, reflect.Chan:
+		return fmt.Sprintf("%T(nil=%v)", v, rv.IsNil())
+	}
+	return fmt.Sprintf("%T", v)
+}
+
+var hexAddr = regexp.MustCompile(`0x[0-9a-f]+`)
+
+// acceptValue is the condition of the conditional deletes: a function of the dynamic type alone, so that the
+// model can evaluate it on what it stored.
+func acceptValue(v interface{}) bool { return len(fmt.Sprintf("%T", v))%2 == 0 }
+
+type richKV struct {
+	k string
+	v interface{}
+}
+
+type richEntry struct {
+	val  interface{}
+	kind int
 }
 
 func runRich(sc *richScenario) (labels []string, nontrivial bool, err error) {
@@ -109,10 +306,16 @@ func runRich(sc *richScenario) (labels []string, nontrivial bool, err error) {
 		if r := recover(); r != nil {
 			err = fmt.Errorf("panic: %v", r)
 		}
+		if err != nil {
+			// the tree's own error texts print values with %#v (addresses): keep the message reproducible
+			err = errors.New(hexAddr.ReplaceAllString(err.Error(), "0x?"))
+		}
 	}()
 	t := &ctree.Tree{}
-	model := map[string]interface{}{}
+	src := richSource()
+	model := map[string]richEntry{}
 	lab := map[string]bool{}
+	touched := map[string]bool{} // leaves holding a tree-related value
 	addOK := func(p []string) bool {
 		for k := range model {
 			q := runkey(k)
@@ -130,6 +333,50 @@ func runRich(sc *richScenario) (labels []string, nontrivial bool, err error) {
 		sort.Slice(ps, func(i, j int) bool { return lessPath(ps[i], ps[j]) })
 		return ps
 	}
+	matching := func(q []string) []string {
+		var out []string
+		for k := range model {
+			if Matches(q, runkey(k)) {
+				out = append(out, k)
+			}
+		}
+		sort.Strings(out)
+		return out
+	}
+	// checkSet: got is exactly the leaves want, each once, each with the stored value
+	checkSet := func(what string, got []richKV, want []string) error {
+		seen := map[string]bool{}
+		for _, e := range got {
+			if seen[e.k] {
+				return fmt.Errorf("%s reported %s twice", what, e.k)
+			}
+			seen[e.k] = true
+			me, ok := model[e.k]
+			if !ok {
+				return fmt.Errorf("%s reported a leaf at %s (value %s); the stored leaves are %q", what, e.k, describe(e.v), sortedKeys())
+			}
+			if !sameValue(e.v, me.val) {
+				return fmt.Errorf("%s reported %s = %s, last stored there: %s", what, e.k, describe(e.v), describe(me.val))
+			}
+		}
+		for _, k := range want {
+			if !seen[k] {
+				return fmt.Errorf("%s did not report the stored leaf %s (value %s)", what, k, describe(model[k].val))
+			}
+		}
+		if len(got) != len(want) {
+			return fmt.Errorf("%s reported %d leaves, %d stored leaves match", what, len(got), len(want))
+		}
+		return nil
+	}
+	visit := func(f func(ctree.VisitFunc) error) ([]richKV, error) {
+		var out []richKV
+		e := f(func(path []string, l *ctree.Leaf, v interface{}) error {
+			out = append(out, richKV{rkey(path), v})
+			return nil
+		})
+		return out, e
+	}
 	for i, op := range sc.Ops {
 		p := op.Path
 		if op.Pick > 0 && len(model) > 0 {
@@ -137,62 +384,232 @@ func runRich(sc *richScenario) (labels []string, nontrivial bool, err error) {
 			p = ks[(op.Pick-1)%len(ks)]
 		}
 		switch op.Kind {
-		case "add":
-			val := mkValue(op.K, op.V)
+		case "add", "upd":
+			old, exists := model[rkey(p)]
+			if op.Kind == "upd" && !exists {
+				break
+			}
+			if op.Same && exists {
+				op.K = old.kind
+			}
+			val := mkTreeValue(src, op.K, op.V)
 			want := addOK(p)
-			if old, ok := model[rkey(p)]; ok {
+			if exists {
 				lab["add-at-existing-leaf"] = true
-				if reflect.TypeOf(old) == reflect.TypeOf(val) && !reflect.TypeOf(val).Comparable() {
+				if reflect.TypeOf(old.val) == reflect.TypeOf(val) && !reflect.TypeOf(val).Comparable() {
 					lab["overwrite-with-uncomparable-value-of-same-type"] = true
 					nontrivial = true
 				}
 				if _, isF := val.(float64); isF {
-					if of, ok := old.(float64); ok && of == val.(float64) && !sameValue(old, val) {
+					if of, ok := old.val.(float64); ok && of == val.(float64) && !sameValue(old.val, val) {
 						lab["overwrite-zero-with-negative-zero"] = true
 					}
 				}
+				if touched[rkey(p)] {
+					lab["tree-related-value-overwritten"] = true
+					nontrivial = true
+				}
 			}
-			gerr := t.Add(p, val)
-			if want != (gerr == nil) {
-				return keysOfSet(lab), nontrivial, fmt.Errorf("op %d Add(%q, %#v): error=%v, model says success=%v", i, p, val, gerr, want)
+			if !want {
+				for k := range touched {
+					if isProperPrefix(runkey(k), p) {
+						lab["add-through-a-leaf-holding-a-tree-related-value"] = true
+						nontrivial = true
+					}
+				}
+			}
+			if op.Kind == "upd" {
+				l := t.GetLeaf(p)
+				if l == nil {
+					return keysOfSet(lab), nontrivial, fmt.Errorf("op %d GetLeaf(%q) = nil for a stored leaf", i, p)
+				}
+				l.Update(val)
+				lab["value-written-through-a-leaf-handle"] = true
+			} else {
+				gerr := t.Add(p, val)
+				if want != (gerr == nil) {
+					return keysOfSet(lab), nontrivial, fmt.Errorf("op %d Add(%q, %s): error=%v, model says success=%v", i, p, describe(val), gerr, want)
+				}
 			}
 			if want {
-				model[rkey(p)] = val
+				model[rkey(p)] = richEntry{val, op.K}
+				delete(touched, rkey(p))
+				if n, ok := richKindName[op.K]; ok {
+					lab["value:"+n] = true
+					if op.K != 14 {
+						touched[rkey(p)] = true
+					}
+					if rv := reflect.ValueOf(val); (rv.Kind() == reflect.Map || rv.Kind() == reflect.Pointer || rv.Kind() == reflect.Func || rv.Kind() == reflect.Slice) && rv.IsNil() {
+						lab["value:typed-nil"] = true
+					}
+				}
 			}
-		case "del":
+		case "del", "delcond", "walkdel":
+			q := append([]string{}, p...)
+			for j := range q {
+				if op.G>>uint(j)&1 == 1 {
+					q[j] = "*"
+				}
+			}
+			if op.G>>4&1 == 1 {
+				q = append(q, "*")
+			}
+			if op.G != 0 {
+				lab["glob-delete"] = true
+			}
+			matches := matching(q)
 			var gone []string
-			for k := range model {
-				if Matches(p, runkey(k)) {
+			for _, k := range matches {
+				if op.Kind == "del" || acceptValue(model[k].val) {
 					gone = append(gone, k)
 				}
 			}
-			got := t.Delete(p)
-			if len(got) != len(gone) {
-				return keysOfSet(lab), nontrivial, fmt.Errorf("op %d Delete(%q) returned %d leaves, model %d", i, p, len(got), len(gone))
+			var strayed interface{}
+			stray := false
+			cond := func(v interface{}) bool {
+				found := false
+				for _, k := range matches {
+					if sameValue(v, model[k].val) {
+						found = true
+					}
+				}
+				if !found && !stray {
+					stray, strayed = true, v
+				}
+				return v != nil && acceptValue(v)
+			}
+			var got []richKV
+			what := fmt.Sprintf("op %d %s(%q)", i, op.Kind, q)
+			switch op.Kind {
+			case "del":
+				for _, r := range t.Delete(q) {
+					got = append(got, richKV{k: rkey(r)})
+				}
+			case "delcond":
+				for _, r := range t.DeleteConditional(q, cond) {
+					got = append(got, richKV{k: rkey(r)})
+				}
+			case "walkdel":
+				var vals []interface{}
+				t.WalkDeleted(q, cond, func(v interface{}) { vals = append(vals, v) })
+				// the visited values are the removed values, as a multiset
+				used := make([]bool, len(vals))
+				for _, k := range gone {
+					found := false
+					for j, v := range vals {
+						if !used[j] && sameValue(v, model[k].val) {
+							used[j], found = true, true
+							break
+						}
+					}
+					if !found {
+						return keysOfSet(lab), nontrivial, fmt.Errorf("%s did not visit the value %s of the matching leaf %s", what, describe(model[k].val), k)
+					}
+				}
+				if len(vals) != len(gone) {
+					return keysOfSet(lab), nontrivial, fmt.Errorf("%s visited %d values, %d leaves match and satisfy the condition", what, len(vals), len(gone))
+				}
+			}
+			if stray {
+				return keysOfSet(lab), nontrivial, fmt.Errorf("%s: the condition was consulted for the value %s, which no leaf matching the path holds", what, describe(strayed))
+			}
+			if op.Kind != "walkdel" {
+				sort.Slice(got, func(a, b int) bool { return got[a].k < got[b].k })
+				for j := range got {
+					if j >= len(gone) || got[j].k != gone[j] {
+						return keysOfSet(lab), nontrivial, fmt.Errorf("%s returned %v, a query for the same path reports %q", what, got, gone)
+					}
+				}
+				if len(got) != len(gone) {
+					return keysOfSet(lab), nontrivial, fmt.Errorf("%s returned %d leaves, model %d (%q)", what, len(got), len(gone), gone)
+				}
 			}
 			for _, k := range gone {
+				if touched[k] {
+					lab["tree-related-value-deleted"] = true
+					nontrivial = true
+				}
 				delete(model, k)
+				delete(touched, k)
+			}
+			// the query for the same path now reports what the delete left
+			qs, qerr := visit(func(f ctree.VisitFunc) error { return t.Query(q, f) })
+			if qerr != nil {
+				return keysOfSet(lab), nontrivial, fmt.Errorf("after %s: Query error %v", what, qerr)
+			}
+			if e := checkSet(fmt.Sprintf("after %s: Query(%q)", what, q), qs, matching(q)); e != nil {
+				return keysOfSet(lab), nontrivial, e
 			}
 		}
-		// every stored value is what was stored last
+		after := fmt.Sprintf("after op %d (%s %q)", i, op.Kind, p)
+		// every stored leaf is a leaf holding what was stored last; every proper prefix is an interior node
+		interior := map[string][]string{}
 		for k, want := range model {
-			if got := t.GetLeafValue(runkey(k)); !sameValue(got, want) {
-				return keysOfSet(lab), nontrivial, fmt.Errorf("after op %d: GetLeafValue(%q) = %#v, last stored %#v", i, runkey(k), got, want)
+			kp := runkey(k)
+			if got := t.GetLeafValue(kp); !sameValue(got, want.val) {
+				return keysOfSet(lab), nontrivial, fmt.Errorf("%s: GetLeafValue(%q) = %s, last stored %s", after, kp, describe(got), describe(want.val))
+			}
+			n := t.Get(kp)
+			if n == nil || n.IsBranch() || n.Children() != nil {
+				return keysOfSet(lab), nontrivial, fmt.Errorf("%s: Get(%q): node nil=%v IsBranch=%v Children=%d; a leaf holding %s is stored there", after, kp, n == nil, n.IsBranch(), len(n.Children()), describe(want.val))
+			}
+			if got := t.GetLeaf(kp).Value(); !sameValue(got, want.val) {
+				return keysOfSet(lab), nontrivial, fmt.Errorf("%s: GetLeaf(%q).Value() = %s, last stored %s", after, kp, describe(got), describe(want.val))
+			}
+			for d := 0; d < len(kp); d++ {
+				interior[rkey(kp[:d])] = kp[:d]
+			}
+			// nothing is below a leaf
+			if t.Get(append(append([]string{}, kp...), "a")) != nil {
+				return keysOfSet(lab), nontrivial, fmt.Errorf("%s: Get(%q + a) found a node below the leaf holding %s", after, kp, describe(want.val))
+			}
+		}
+		for _, ip := range interior {
+			n := t.Get(ip)
+			if n == nil || !n.IsBranch() || n.Value() != nil {
+				return keysOfSet(lab), nontrivial, fmt.Errorf("%s: Get(%q): node nil=%v IsBranch=%v; leaves are stored below it", after, ip, n == nil, n.IsBranch())
+			}
+			names := map[string]bool{}
+			for k := range model {
+				if kp := runkey(k); isProperPrefix(ip, kp) {
+					names[kp[len(ip)]] = true
+				}
+			}
+			ch := n.Children()
+			for name := range ch {
+				if !names[name] {
+					return keysOfSet(lab), nontrivial, fmt.Errorf("%s: Children(%q) has %q, no stored leaf is below it", after, ip, name)
+				}
+			}
+			if len(ch) != len(names) {
+				return keysOfSet(lab), nontrivial, fmt.Errorf("%s: Children(%q) has %d entries, model %d", after, ip, len(ch), len(names))
+			}
+		}
+		if len(model) == 0 && t.IsBranch() {
+			return keysOfSet(lab), nontrivial, fmt.Errorf("%s: the root is a branch, nothing is stored", after)
+		}
+		all := matching(nil)
+		for name, f := range map[string]func(ctree.VisitFunc) error{"Walk": t.Walk, "Query(nil)": func(f ctree.VisitFunc) error { return t.Query(nil, f) }} {
+			got, e := visit(f)
+			if e != nil {
+				return keysOfSet(lab), nontrivial, fmt.Errorf("%s: %s error %v", after, name, e)
+			}
+			if e := checkSet(after+": "+name, got, all); e != nil {
+				return keysOfSet(lab), nontrivial, e
 			}
 		}
 		// WalkSorted: exactly the stored leaves, in element-wise lexicographic order
-		var walked [][]string
-		t.WalkSorted(func(path []string, _ *ctree.Leaf, _ interface{}) error {
-			walked = append(walked, append([]string{}, path...))
-			return nil
-		})
-		want := sortedKeys()
-		if len(walked) != len(want) {
-			return keysOfSet(lab), nontrivial, fmt.Errorf("after op %d: WalkSorted visited %d leaves, %d are stored", i, len(walked), len(want))
+		walked, werr := visit(t.WalkSorted)
+		if werr != nil {
+			return keysOfSet(lab), nontrivial, fmt.Errorf("%s: WalkSorted error %v", after, werr)
 		}
+		if e := checkSet(after+": WalkSorted", walked, all); e != nil {
+			return keysOfSet(lab), nontrivial, e
+		}
+		want := sortedKeys()
 		for j := range want {
-			if rkey(walked[j]) != rkey(want[j]) {
-				return keysOfSet(lab), nontrivial, fmt.Errorf("after op %d: WalkSorted position %d is %q, element-wise lexicographic order wants %q (full order %q)", i, j, walked[j], want[j], want)
+			if walked[j].k != rkey(want[j]) {
+				return keysOfSet(lab), nontrivial, fmt.Errorf("%s: WalkSorted position %d is %s, element-wise lexicographic order wants %q (full order %q)", after, j, walked[j].k, want[j], want)
 			}
 		}
 		for j := 0; j+1 < len(want); j++ {
@@ -206,6 +623,10 @@ func runRich(sc *richScenario) (labels []string, nontrivial bool, err error) {
 					break
 				}
 			}
+		}
+		// values are opaque: what they reference is never modified by the tree
+		if e := checkRichSource(src); e != nil {
+			return keysOfSet(lab), nontrivial, fmt.Errorf("%s: %v", after, e)
 		}
 	}
 	return keysOfSet(lab), nontrivial, nil
